@@ -49,3 +49,11 @@ VARIANTS += [
     v("c17-window-eq-len", S, "    n = xx.size\n    yy[:] = 0\n", "    n = xx.size\n    if window_size >= n:\n        yy[:] = nodata\n        return\n    yy[:] = 0\n", names="R-SENTINEL-ACC", note="seeded C17a: window == length loses the one complete window"),
     v("c17-twin-window-gt-len", S, "    n = xx.size\n    yy[:] = 0\n", "    n = xx.size\n    if window_size > n:\n        yy[:] = nodata\n        return\n    yy[:] = 0\n", expect="silent", note="window longer than the series: no complete window exists"),
 ]
+
+VARIANTS += [
+    v("c17-meangrp-int8", A, 'np.array(groups, dtype="int16")\n            if not isinstance(groups, np.ndarray)', 'np.array(groups, dtype="int8")\n            if not isinstance(groups, np.ndarray)', names="mean_grp"),
+    v("c17-meangrp-numgroups", A, "num_groups = np.unique(groups).size", "num_groups = groups.max()", names="mean_grp", note="the last group is never processed"),
+    v("c17-twin-numgroups", A, "num_groups = np.unique(groups).size", "num_groups = len(np.unique(groups))", expect="silent"),
+    v("c17-precast", A, "            rolling_sum,\n            self._obj,\n", "            rolling_sum,\n            self._obj.astype(dtype),\n", names="provenance", note="float32 rounding before the nodata comparison"),
+    v("c17-twin-alias", A, "        xx = xarray.apply_ufunc(\n            rolling_sum,\n            self._obj,\n", "        obj = self._obj\n        xx = xarray.apply_ufunc(\n            rolling_sum,\n            obj,\n", expect="silent"),
+]
